@@ -115,6 +115,7 @@ type pathExec struct {
 	uuidN           int
 	initFailed      map[string]string
 	spec            int
+	covers          map[string]int
 	fusions, merges int
 }
 
@@ -544,6 +545,7 @@ type HarnessRun struct {
 	HavocDecs     int
 	FPOps         int
 	Merges        int
+	Covers        map[string]int
 	UnknownPaths  int
 	MaxPaths      int
 	Truncated     bool
@@ -608,7 +610,7 @@ type SolverStats struct {
 // Explore runs harness fn to exhaustion (or MaxPaths / Deadline) on e.Workers workers.
 func (e *Env) Explore(name string, fn *ssa.Function) (*HarnessRun, *SolverStats) {
 	h := &HarnessRun{Name: name, Fn: fn, Asserts: map[string]*AssertStat{}, Funcs: map[string]struct{}{},
-		HavocKernels: map[string]int{}, sampleCap: e.SampleCap, MaxPaths: e.MaxPaths, Outcomes: map[string]int{}, InputsSeen: map[string]string{}}
+		HavocKernels: map[string]int{}, Covers: map[string]int{}, sampleCap: e.SampleCap, MaxPaths: e.MaxPaths, Outcomes: map[string]int{}, InputsSeen: map[string]string{}}
 	h.cond = sync.NewCond(&h.mu)
 	h.queue = [][]Decision{nil}
 	if e.Deadline > 0 {
@@ -739,6 +741,9 @@ func (h *HarnessRun) merge(px *pathExec) {
 	h.HavocDecs += px.havocDecisions
 	h.FPOps += px.fpOps
 	h.Merges += px.merges + px.fusions
+	for id, n := range px.covers {
+		h.Covers[id] += n
+	}
 	h.GoroutinesRun += px.goroutinesRun
 	if px.pcUnknown {
 		h.UnknownPaths++
@@ -757,7 +762,7 @@ type pathOutcome struct {
 func (e *Env) runPath(h *HarnessRun, solver *smt.Solver, prefix []Decision) (px *pathExec) {
 	px = &pathExec{ctx: smt.NewCtx(), solver: solver, h: h, prefix: prefix, maxSteps: e.MaxSteps, unwind: e.Unwind,
 		nameCount: map[string]int{}, asserts: map[string]*AssertStat{}, funcs: map[*ssa.Function]struct{}{},
-		havocKernels: map[string]int{}, strTab: map[string]value{}, floatStrings: map[string][2]*smt.Term{}, initFailed: map[string]string{}}
+		havocKernels: map[string]int{}, strTab: map[string]value{}, floatStrings: map[string][2]*smt.Term{}, initFailed: map[string]string{}, covers: map[string]int{}}
 	i := &interpreter{prog: e.Prog, globals: map[*ssa.Global]*value{}, initState: map[*ssa.Package]int{}, px: px, env: e}
 	if rt := e.Prog.ImportedPackage("runtime"); rt != nil {
 		i.runtimeErrorString = rt.Type("errorString").Object().Type()
